@@ -90,6 +90,14 @@ def run_pool_case(case):
                     if stop is not None and len(out['delivered']) >= stop:
                         break
                     out['delivered'].append(x)
+                    if case.get('readahead'):
+                        # the consumer records the hand-over in the same append-only log and then pauses, so that the
+                        # workers can run as far ahead as the library lets them
+                        fd = os.open(log, os.O_WRONLY | os.O_APPEND | os.O_CREAT)
+                        os.write(fd, f'handed {len(out["delivered"])}\n'.encode())
+                        os.close(fd)
+                        if len(out['delivered']) <= case.get('pauses', 4):
+                            time.sleep(case.get('pause_ms', 40) / 1000.0)
             except Inconclusive:
                 raise
             except Exception as e:
@@ -106,6 +114,8 @@ def run_pool_case(case):
                     later = _read(log)
                     out['lines_at_return'] = at_return
                     out['lines_later'] = later
+        if case.get('readahead'):
+            out['lines'] = _read(log)
         return out
     finally:
         import shutil
@@ -159,6 +169,19 @@ def judge_pool(case, out):
             raise Violation(f'pool-wrong-error|{case["backend"]}', f'{desc}\nraised {e!r}; expected {ename}("fn", {pos})')
     if case['api'] in ('pm', 'pf') and case.get('catch', False) is False and out['len'] != case['n']:
         raise Violation(f'pool-len-wrong|{case["backend"]}', f'{desc}\nlen {out["len"]}')
+    if case.get('readahead'):
+        started = handed = 0
+        for line in out.get('lines', []):
+            if line.startswith('start'):
+                started += 1
+            elif line.startswith('handed'):
+                handed += 1
+            single_thread = case['api'] == 'pf' and case['workers'] == 1 and case['backend'] == 't'
+            if started - handed > case['buffer'] + (2 if single_thread else 0):
+                raise Violation(f'pool-readahead-started|{case["backend"]}',
+                                f'{desc}\nat log line {line!r}: {started} function applications started, {handed} '
+                                f'examples handed to the consumer, buffer_size {case["buffer"]}')
+        out['max_ahead'] = started - handed
     if out.get('closed') and case.get('markers'):
         late = [l for l in out['lines_later'][len(out['lines_at_return']):]]
         if late:
@@ -195,6 +218,15 @@ def st_pool_case(draw, profile, backends=BACKENDS):
             # 'multiprocessing' / 'concurrent_mp' cannot pickle local functions (documented), and the catching wrapper
             # of PrefetchDataset is one: that combination is outside the domain
             case['catch'] = draw(st.sampled_from([False, 'VErrA', ['VErrA', 'VErrC']]))
+    if profile == 'readahead':
+        case['n'] = n = draw(st.sampled_from([16, 24]))
+        case['delays'] = [draw(st.sampled_from([1, 2]))] * n
+        case['markers'] = True
+        case['readahead'] = True
+        case['pauses'] = draw(st.integers(2, 5))
+        case.pop('with_key', None)
+        if api == 'pf' and be in ('t', 'mp', 'dill_mp') and draw(st.booleans()):
+            case['catch'] = True  # catching enabled, nothing raises
     if profile == 'stop':
         case['n'] = n = draw(st.sampled_from([12, 30]))
         case['buffer'] = b = draw(st.sampled_from([w, 4 * w + 8]))
